@@ -93,7 +93,7 @@ def build_scenario(name: str, seed: int, root: Path):
         if name == "reindex_multi_zid_writeback":
             # THREE indexed pages that each need (only) a ZID write-back: the write-back of one page must not
             # make another, not yet rewritten page look up to date
-            for rel, line in (("a.zo", "- appended to a without zid\n"), ("sub/b.zo", "o P2 appended to b without zid\n"), ("c.zo", "- appended to c without zid +shared\n")):
+            for rel, line in (("a.zo", "- appended to a without zid\n- 2024-01-15 appended to a with an own create date\no P1 2023-12-31 and a third create date\n"), ("sub/b.zo", "o P2 appended to b without zid\n"), ("c.zo", "- appended to c without zid +shared\n- 2024-02-29 dated one in c\n")):
                 (root / rel).write_text((root / rel).read_text() + line)
             return ["db", "reindex"], day
         if name == "reindex_multi_stamp_writeback":
@@ -220,6 +220,13 @@ def run_unit(unit: dict) -> dict:
     n = len(events)
     acc.count("effects.total", n if unit["shard"] == 0 else 0)
     b_files, b_dump, b_problems = masked_state(work, lacking)
+    # pages whose uninterrupted run changed a line of a note that already HAD a ZID (= got a modify-date stamp)
+    stamped_pages = set()
+    for rel, ol in orig_lines.items():
+        if (work / rel).exists():
+            fl = (work / rel).read_text().split("\n")
+            if any(a_ != b_ and (i + 1) not in lacking.get(rel, ()) for i, (a_, b_) in enumerate(zip(ol, fl))):
+                stamped_pages.add(rel)
     base_final = sorted(db.canon(x) for x in mask(b_dump.notes, lacking))
     if b_problems or b_dump.problems:
         acc.inconclusive.append(f"{name}: uninterrupted run leaves problems {b_problems} {b_dump.problems[:2]}")
@@ -266,10 +273,12 @@ def run_unit(unit: dict) -> dict:
         if oa or ob:
             finding = None
             if not torn and ev[0] == "write" and not ev[1].startswith(".zorg") and any(e[0] == "write" and e[1] == ev[1] for e in events[: k - 1]):
-                # known mechanism: the page needs two write-backs in one run (modify dates, then new
-                # ZIDs); the hash recorded after the first one makes the rerun skip the page.  It
-                # explains the discrepancy iff every differing record belongs to exactly that page.
-                if all(json.loads(dict(x)["page"]) == ev[1] for x in oa + ob):
+                # known mechanism: the page needs two write-backs OF DIFFERENT KINDS in one run (modify dates,
+                # then new ZIDs); the hash recorded after the first one makes the rerun skip the page.  It
+                # explains the discrepancy iff the page really needed both a stamp and a ZID, is written exactly
+                # twice in the uninterrupted run, and every differing record belongs to exactly that page.
+                n_writes = sum(1 for e in events if e[0] == "write" and e[1] == ev[1])
+                if ev[1] in stamped_pages and lacking.get(ev[1]) and n_writes == 2 and all(json.loads(dict(x)["page"]) == ev[1] for x in oa + ob):
                     finding = FINDING_2ND
             out.append(("index != files after crash+rerun (" + _fields(oa, ob) + ")" + sfx, f"{name}: crash before #{k} ({label}) + rerun: files vs index: " + describe_diff(oa, ob, "files", "index"), finding))
         zs = [x["zid"] for x in dump.notes]
